@@ -333,6 +333,27 @@ impl<'r, 'c, 's, W: Write> Serializer for DatumSerializer<'r, 'c, 's, W> {
 				self.serialize_str(variant)
 			}
 			SchemaNode::Union(union) => {
+				// If the unit variant carries the name of the union's `null` variant
+				// (`enum Foo { Null, String(String) }`), that's the one it designates -
+				// this is also the name under which the deserializer reports it.
+				// (Unless it may as well be the symbol of an enum of that union, in which
+				// case we keep resolving by type.)
+				if let Some((discriminant, SchemaNode::Null)) =
+					union.per_type_lookup.named(variant)
+				{
+					let may_be_enum_symbol = union.variants.iter().any(|v| match v.as_ref() {
+						SchemaNode::Enum(enum_) => enum_.per_name_lookup.contains_key(variant),
+						_ => false,
+					});
+					if !may_be_enum_symbol {
+						return self
+							.state
+							.writer
+							.write_varint(discriminant)
+							.map(|_| ())
+							.map_err(SerError::io);
+					}
+				}
 				self.serialize_union_unnamed(union, UnionVariantLookupKey::UnitVariant, |ser| {
 					ser.serialize_unit_variant(name, variant_index, variant)
 				})
